@@ -22,6 +22,7 @@ ASSUMPTIONS = [
 ]
 MIN_NONTRIVIAL = {"quick": 3000, "thorough": 40000}
 REQUIRED_COUNTERS = {"obs_nonframe_leaf": {"quick": 300, "thorough": 3000},
+                     "obs_falsy_leaf": {"quick": 100, "thorough": 1000},
                      "obs_agen_links": {"quick": 300, "thorough": 3000},
                      "exhausted_checked": {"quick": 300, "thorough": 3000}}
 SHARD_TIMEOUT = {"quick": 400, "thorough": 5400}
@@ -106,6 +107,12 @@ def check_chain(spec, res, interp, chains, stackscope, state):
             res.nontrivial(interp, repr(spec), j)
         if s.leaf is not None:
             res.count("obs_nonframe_leaf")
+        if want_leaf is not _UNKNOWN and want_leaf is not None:
+            try:
+                if not want_leaf:
+                    res.count("obs_falsy_leaf")
+            except Exception:
+                pass
         if any(k[0] in ("anext", "asend", "afor", "athrow", "aclose") for k in spec[1]) or spec[0] == "agen":
             res.count("obs_agen_links")
         res.count("obs")
